@@ -8,14 +8,16 @@ Open Scope nat_scope.
 (* Streaming download, for ALL files, part sizes p >= 1 and ALL retry patterns (FLOOD_WAIT /
    retryable timeouts re-issue the same request): if the loop finishes, the chunks written,
    in order, concatenate to the file (no gap, no duplicate, correct length), all but the last
-   are full, the returned type is the tag of the chunk that stopped the loop, and nextPlain
+   are full, the returned type is the type of the chunk that stopped the loop (block size/p: the
+   short last chunk, or the empty one when size = k*p; [tag i] = type the schema attaches to its
+   answer for block i), and nextPlain
    handed out the offsets 0, p, 2p, ... each exactly once: size/p + 1 of them, i.e. for
    size = k*p the k full chunks and the empty one that stops, for an empty file just offset 0. *)
 Theorem C33_stream :
-  forall (B T : Type) (file : list B) (tag : T) (p : nat), 1 <= p ->
+  forall (B T : Type) (file : list B) (tag : nat -> T) (p : nat), 1 <= p ->
   forall fuel env w t offs reqs,
     stream_loop (blk file p) lempty (is_last p) tag fuel 0 env = SDone w t offs reqs ->
-    concat w = file /\ all_full p w /\ t = tag /\
+    concat w = file /\ all_full p w /\ t = tag (length file / p) /\
     offs = seq 0 (length offs) /\ length offs = S (length file / p).
 Proof.
   intros B T file tag p Hp fuel env w t offs reqs H.
@@ -25,7 +27,7 @@ Print Assumptions C33_stream.
 
 (* ... and it does finish when the schema answers *)
 Theorem C33_stream_completes :
-  forall (B T : Type) (file : list B) (tag : T) (p : nat), 1 <= p ->
+  forall (B T : Type) (file : list B) (tag : nat -> T) (p : nat), 1 <= p ->
   exists w t offs reqs,
     stream_loop (blk file p) lempty (is_last p) tag (S (length file)) 0 (repeat false (S (length file))) = SDone w t offs reqs.
 Proof.
@@ -37,17 +39,21 @@ Print Assumptions C33_stream_completes.
    workers, the retries and the write loop: when g.Wait() returns nil, WriteAt was called
    exactly once for every non-empty block i (offset i*p < size) and for nothing else, the
    output written through io.WriterAt equals the file at every position (and is empty beyond),
-   the returned type is the served one, and every offset up to and including the end of the
-   file was handed out (so size = k*p and the empty file stop, too). *)
+   the returned type is the type of SOME chunk that stops a worker (a block j that was handed out
+   and is short or empty: the short last block or any empty block past the end -- typOnce keeps
+   whichever calls stop first, so with a server that labels these chunks differently the result
+   depends on the schedule: C33_parallel_type_depends_on_schedule; with one type per file, as an
+   honest server has, it is that type), and every offset up to and including the end of the file
+   was handed out (so size = k*p and the empty file stop, too). *)
 Theorem C33_parallel :
-  forall (B T : Type) (file : list B) (tag : T) (p threads : nat), 1 <= p -> 1 <= threads ->
+  forall (B T : Type) (file : list B) (tag : nat -> T) (p threads : nat), 1 <= p -> 1 <= threads ->
   forall evs,
     let s := p_run (fun i => lempty (blk file p i)) (fun i => is_last p (blk file p i)) tag threads (p_init T threads) evs in
     p_terminal s = true ->
     NoDup (p_written s) /\
     (forall i, In i (p_written s) <-> i * p < length file) /\
     (forall x, apply_writes file p (p_written s) x = nth_error file x) /\
-    p_typ s = Some tag /\
+    (exists j, j < p_next s /\ length file < (j + 1) * p /\ p_typ s = Some (tag j)) /\
     (forall i, i * p <= length file -> i < p_next s).
 Proof. intros B T file tag p threads Hp Ht evs. exact (p_terminal_correct file tag p threads Hp Ht evs). Qed.
 Print Assumptions C33_parallel.
@@ -55,13 +61,23 @@ Print Assumptions C33_parallel.
 (* non-vacuity: a 10-byte file in parts of 4 with two workers and a schedule with a retry *)
 Example C33_parallel_nonvacuous :
   let file := [1; 2; 3; 4; 5; 6; 7; 8; 9; 10] in
-  let s := p_run (fun i => lempty (blk file 4 i)) (fun i => is_last 4 (blk file 4 i)) 7 2 (p_init nat 2)
+  let s := p_run (fun i => lempty (blk file 4 i)) (fun i => is_last 4 (blk file 4 i)) (fun _ => 7) 2 (p_init nat 2)
              [PCheck 0; PCheck 1; PAlloc 0; PAlloc 1; PRetry 1; PSend 1; PAfter 1; PCheck 1; PAlloc 1; PSend 0; PWrite; PSend 1;
               PAfter 0; PAfter 1; PCheck 0; PWrite; PWrite] in
   p_terminal s = true /\ p_written s = [1; 0; 2] /\ p_typ s = Some 7 /\
   map (apply_writes file 4 (p_written s)) (seq 0 11) = map (nth_error file) (seq 0 11).
 Proof. vm_compute. repeat split. Qed.
 Example C33_stream_exact_multiple :
-  stream_loop (blk [1; 2; 3; 4; 5; 6; 7; 8] 4) lempty (is_last 4) 7 5 0 [true; false; false; true; true; false] =
-  SDone [[1; 2; 3; 4]; [5; 6; 7; 8]] 7 [0; 1; 2] [0; 0; 1; 2; 2; 2].
+  stream_loop (blk [1; 2; 3; 4; 5; 6; 7; 8] 4) lempty (is_last 4) (fun i => i) 5 0 [true; false; false; true; true; false] =
+  SDone [[1; 2; 3; 4]; [5; 6; 7; 8]] 2 [0; 1; 2] [0; 0; 1; 2; 2; 2].
 Proof. vm_compute. reflexivity. Qed.
+(* a server that labels block i with type i: two complete, correct downloads of the same 6-byte file
+   (parts of 4, two workers) report different types -- the short block 1 or the empty block 2 *)
+Example C33_parallel_type_depends_on_schedule :
+  let file := [1; 2; 3; 4; 5; 6] in
+  let run := p_run (fun i => lempty (blk file 4 i)) (fun i => is_last 4 (blk file 4 i)) (fun i => i) 2 (p_init nat 2) in
+  let a := run [PCheck 0; PCheck 1; PAlloc 0; PSend 0; PAfter 0; PCheck 0; PAlloc 0; PAlloc 1; PSend 0; PAfter 0; PSend 1; PWrite; PWrite] in
+  let b := run [PCheck 0; PCheck 1; PAlloc 0; PSend 0; PAfter 0; PCheck 0; PAlloc 0; PAlloc 1; PSend 1; PSend 0; PAfter 0; PWrite; PWrite] in
+  p_terminal a = true /\ p_terminal b = true /\ p_written a = [0; 1] /\ p_written b = [0; 1] /\
+  p_typ a = Some 1 /\ p_typ b = Some 2.
+Proof. vm_compute. repeat split. Qed.
